@@ -99,7 +99,7 @@ HasState(e) == Has(e, "st")
 \* sf_open / sf_open_fd / sf_open_virtual
 NewHandle(e, cid, B, relax) ==
     [life |-> "open", mode |-> ModeOf(e.mode), ch |-> e.ch, fmt |-> e.fmt, rate |-> e.rate,
-     B |-> B, gran |-> IsGranular(e.fmt), skb |-> (e.skb # 0),
+     B |-> B, gran |-> IsGranular(e.fmt), skb |-> (e.st.sk # 0),      \* (SF_INFO.seekable is zeroed for write handles; the handle itself knows)
      frames |-> IF ModeOf(e.mode) = SFM_WRITE THEN 0 ELSE e.st.fr, rpos |-> e.st.rp, wpos |-> e.st.wp, err |-> (e.st.er # 0),
      hw |-> (e.st.hw # 0), auto |-> FALSE, relax |-> relax, cid |-> cid, fid |-> e.fid, route |-> e.route]
 
@@ -141,7 +141,8 @@ OpenClass(e) ==
     ELSE "hostile"
 
 OpenOK(e) ==
-    CASE OpenClass(e) = "new" -> IF fault \/ CfgRelax THEN (e.ok = 0 => OpenFailedOK(e)) ELSE OpenNewOK(e)
+    CASE e.mode = "rw" /\ e.ok = 0 -> OpenFailedOK(e)       \* the library decides which encodings can be opened RDWR (C08 quantifies over those)
+      [] OpenClass(e) = "new" -> IF fault \/ CfgRelax THEN (e.ok = 0 => OpenFailedOK(e)) ELSE OpenNewOK(e)
       [] OpenClass(e) = "written" -> OpenWrittenOK(e, FileOf(e))
       [] OTHER -> OpenHostileOK(e)
 
